@@ -3,7 +3,7 @@ import copy
 import json
 import os
 
-from .. import annot, core
+from .. import annot, core, translate_tables
 from . import c12_env as E
 
 PID = 'C12'
@@ -181,6 +181,7 @@ def run(chk):
     from peptacular.sequence import sequence_funcs
     tier = chk.tier
     rng = chk.rng
+    translate_tables.translate(chk)     # the concrete theorems are stated over the tables regenerated from /repo
     chk.lean_build(['PeptVerif.Props.C12', 'PeptVerif.Props.C12Concrete'], DRV)
     quirks = E.probe_quirks()
     chk.notes.append(f'composition-path behaviours shown by the implementation (owned by C02/C03): '
